@@ -56,6 +56,11 @@ def make_sources(root: Path, rng):
     files[long_name] = cli.simple_svg(2, vb=100)
     names.append(long_name)
     cli.write_svgs(root, files)
+    # an alias the way noto-emoji ships them: a symbolic link to another source (both are inputs, each gets its own glyph); which of the two
+    # spellings comes first on the command line varies with the permutations
+    alias = "proj/svgs/emoji_u1f606.svg"
+    os.symlink("emoji_u1f600.svg", root / alias)
+    names.insert(1, alias)
     return names
 
 
